@@ -206,6 +206,9 @@ func genDLHistory(r *kernel.Rand, maxOps int) map[string]interface{} {
 				op["retx"] = true
 			}
 		}
+		if sh, _ := op["sht"].(int); sh != 0 && sh != 3 && sh != 4 && r.Sub(fmt.Sprint("cm", i)).Chance(1, 12) {
+			op["corrupt_mac"] = r.Sub(fmt.Sprint("cmv", i)).Intn(32)
+		}
 		if r.Chance(1, 4) && dropRun < 200 {
 			op["drop"] = true
 			dropRun++
@@ -249,7 +252,14 @@ func checkC10(c *Ctx) {
 	}
 	c.Batch(jobs, func(j Job, r *Run, fs []Finding) {
 		c.Evals += per - 1
-		lsProbes(c, r, "drops", "wraps256", "delivered", "excluded")
+		lsProbes(c, r, "drops", "wraps256", "delivered", "excluded", "corrupted")
+		for _, e := range r.Events {
+			if e.Ev == "hist" {
+				if f, _ := e.Info["corrupted"].(float64); f > 0 {
+					c.Faults["mac-bit-flip"] += int(f)
+				}
+			}
+		}
 		for _, e := range r.Events {
 			if e.Ev == "hist" {
 				if f, _ := e.Info["drops"].(float64); f > 0 {
